@@ -78,6 +78,14 @@ func (v *VerifRouter) CacheGet(q *dnsmsg.Question, remote netip.AddrPort) (*dnsm
 	return v.r.cache.Get(context.Background(), q, rc)
 }
 
+// CacheGetCtx is CacheGet with the caller's context (the request context of handleServerReq).
+func (v *VerifRouter) CacheGetCtx(ctx context.Context, q *dnsmsg.Question, remote netip.AddrPort) (*dnsmsg.Msg, time.Time, time.Time) {
+	rc := getRequestContext()
+	defer releaseRequestContext(rc)
+	rc.RemoteAddr = remote
+	return v.r.cache.Get(ctx, q, rc)
+}
+
 // CacheGetRaw returns the memory cache's stored bytes for (q, remote) (nil on a miss), before they are decoded.
 // The caller releases the buffer with pool.ReleaseBuf.
 func (v *VerifRouter) CacheGetRaw(q *dnsmsg.Question, remote netip.Addr) pool.Buffer {
